@@ -166,6 +166,8 @@ def search(contract, harness, seed=0, tier="quick", budget=None, want_labels=Non
                     seen.add(key)
                     if harness.nontrivial is None or harness.nontrivial(inputs):
                         stats["nontrivial"] += 1
+                        if "sample" not in stats and len(key) < 4000:
+                            stats["sample"] = encode(inputs)      # one case of this run, written out for the evidence file
             if o.failed:
                 failures.append((inputs, o, label))
                 if stop_at_first:
